@@ -2,35 +2,66 @@
 
 Oracle: an independent reference evaluation — the generated expression is first CHECKED to lie in
 the allowed grammar (own classifier), then evaluated by Python itself with no builtins and a
-namespace built from the verif-side list of allow-listed names. Only the stated directions are
-judged: engine success => value equals Python's (bool-coerced on the logic pathway); Python
-raises => the engine must report failure. A stub tool records the argument values it receives, so
-arguments on the tool pathway are compared too.
+namespace built from the verif-side list of allow-listed names (plus, on the tool pathway, an independent
+twin of every registered tool function). Only the stated directions are judged: engine success =>
+value equals Python's (bool-coerced on the logic pathway); Python raises => the engine must report
+failure. Tool functions record what they receive, so what a tool was called with is compared as
+well as what the call returned.
+
+Workload (see RULE): single expressions and sessions on engines in every configuration the public
+constructor / registration API offers (verbose mode, timeouts under a self-advancing virtual clock,
+ROS limits with repair(), capability sets, tools with and without parameter schemas registered through
+every route, tools that raise / mutate their arguments / return a shared object), several engines used
+alternately, reporting APIs interleaved, results mutated and the expression re-evaluated, values at the
+edges of the arithmetic, degenerate whole expressions, every entry point (metabolize auto / forced,
+digest_glucose), and long histories (> 20 000 evaluations on one engine).
 """
 import ast
 import sys
 
 from rv import core
-from rv.exprgen import AllowedGen, PURE_NAMES, in_allowed_grammar, values_equal
+from rv import vclock
+from rv.exprgen import AllowedGen, PURE_NAMES, in_allowed_grammar
+from rv.c02_gen import BoundaryGen, CHEAP_NAMES, NotCheap
+from rv import c02_rig as rig
 
 PID = "C02"
 LEVEL = "exploration"
 TECHNIQUE = "runtime monitoring by differential oracle: every generated allowed-subset expression is run through the real engine on each accepting pathway and compared with Python's own value under the same allow-listed names"
 RULE = ("expressions generated from the allowed grammar (depth <= 5, literal exponents/repeat counts so evaluation is cheap, keyword arguments, chains, "
-        "short-circuit corners, strings containing True/false/and/<, failing sub-expressions), each run on auto-detect and on every forced pathway that "
-        "accepts it; non-trivial = >= 2 operators or a call; distinct = normalised ast.dump of the expression")
+        "short-circuit corners, strings containing True/false/and/<, failing sub-expressions, integers above 2**53, floats one ulp / 1e-13 apart, "
+        "denormals, nan/inf/-0.0, other literal spellings, whole expressions that are one literal), each run on auto-detect and on every forced "
+        "pathway that accepts it and through digest_glucose; engines in default and non-default configurations (verbose, timeouts under a virtual "
+        "clock, ROS limits + repair, capability sets, tools with/without schemas via every registration route, raising/mutating tools), several "
+        "engines alternately, reporting APIs interleaved, long histories; non-trivial = >= 2 operators or a call; distinct = normalised ast.dump of the expression")
 ASSUMPTIONS = ["the reference binds the lower-case spellings true/false only on the logic pathway (the normalisation the engine documents)",
                "a failure where Python succeeds is not a violation (the statement says 'whenever it reports success')",
-               "value equality = same type and ==, NaN-aware, element-wise for lists/tuples"]
+               "value equality = same type and ==, NaN-aware, element-wise for lists/tuples (so 0.0 and -0.0 count as equal, as they do in Python)",
+               "a registered tool is an allow-listed function on the tool pathway: Python's value of `tool(args, kw=...)` is the registered function applied to Python's values of the arguments",
+               "leading blanks/tabs of the expression text are ignored by the reference, as Python's eval() ignores them",
+               "an exception escaping metabolize() is C01's subject (totality) and is only counted here"]
+
+# long sessions: case -> (evaluations, variant); variant 0 = plain engine, 1 = configured engine on the default ROS limit kept alive with repair()
+LONG = {"quick": {7: (22000, 0)},
+        "thorough": {7: (30000, 0), 100007: (60000, 1), 300007: (30000, 0), 500007: (30000, 1), 700007: (30000, 0), 900007: (30000, 1),
+                     1000007: (30000, 0), 1100007: (30000, 1)}}
 
 
 def plan(tier):
-    return {"cases": 120000 if tier == "quick" else 1500000, "shards": 8 if tier == "quick" else 14, "min_nontrivial": 5000,
+    return {"cases": 80000 if tier == "quick" else 1200000, "shards": 8 if tier == "quick" else 14, "min_nontrivial": 5000,
             "timeout": 600 if tier == "quick" else 2400,
             "require": {"engine_success_compared": 20000, "python_raises_checked": 5000, "keyword_calls_compared": 300,
                         "chains_compared": 1000, "boolop_compared": 2000, "logic_pathway_compared": 3000, "math_pathway_compared": 3000,
                         "tool_args_compared": 500, "transform_pathway_compared": 200, "string_literal_with_keywords": 300,
-                        "sessions": 2000, "session_steps": 8000, "session_failed_logic_evaluations": 500}}
+                        "sessions": 1500, "session_steps": 8000, "session_failed_logic_evaluations": 500,
+                        # round 3
+                        "bare_numeric_literal_compared": 400, "near_comparisons_compared": 1500, "beyond_2**53_compared": 800,
+                        "digest_glucose_compared": 800, "verbose_mode_compared": 2000, "virtual_clock_compared": 800,
+                        "timed_out_mid_evaluation": 50, "nondefault_config_compared": 3000, "schema_tool_calls_compared": 500,
+                        "tool_results_compared": 1500, "tool_call_python_raises_checked": 500, "tool_body_raised_checked": 60,
+                        "undeclared_keyword_reached_tool": 100, "reads_interleaved": 1500, "repairs": 500,
+                        "reevaluated_after_result_mutation": 150, "multi_instance_steps": 5000, "long_session_evaluations": 15000,
+                        "registration_routes_used": 4}}
 
 
 class _Raised:
@@ -41,73 +72,255 @@ class _Raised:
         return "raises %s" % type(self.e).__name__
 
 
-def reference(expr, lower_bools, extra=None):
-    """Python's value of `expr` with the allow-listed names; _Raised if Python raises; None if not confinable."""
+def _r(x, n=200):
+    """repr that cannot raise (an integer beyond the str() digit limit)"""
     try:
-        tree = ast.parse(expr, mode="eval")
-    except (SyntaxError, ValueError, RecursionError, MemoryError):
-        return None
-    ns = dict(PURE_NAMES)
-    if lower_bools:
-        ns["true"], ns["false"] = True, False
-    if extra:
-        ns.update(extra)
+        return repr(x)[:n]
+    except Exception:  # noqa
+        return "<%s, unprintable>" % type(x).__name__
+
+
+def same_value(a, b):
+    """same type and ==, NaN-aware (also inside complex), recursive for lists/tuples"""
+    if type(a) is not type(b):
+        return False
+    if isinstance(a, float):
+        return (a != a and b != b) or a == b
+    if isinstance(a, complex):
+        return same_value(a.real, b.real) and same_value(a.imag, b.imag)
+    if isinstance(a, (list, tuple)):
+        return len(a) == len(b) and all(same_value(x, y) for x, y in zip(a, b))
+    try:
+        return bool(a == b)
+    except Exception:
+        return a is b
+
+
+def _ref_tree(tree, ns):
     # confine: names may be unknown (-> NameError, legitimately "Python raises"), everything else must be in the grammar
     names = set(ns) | {n.id for n in ast.walk(tree) if isinstance(n, ast.Name)}
     if not in_allowed_grammar(tree, names=names):
         return None
     try:
         return eval(compile(tree, "<ref>", "eval"), {"__builtins__": {}}, ns)
-    except RecursionError:
+    except (RecursionError, NotCheap):
         return None
     except BaseException as e:  # noqa
         return _Raised(e)
 
 
-def run_case(ctx, n):
-    """One engine per case. Most cases evaluate one generated expression (on 1-2 pathways); every fifth case is a SESSION: the same
-    engine evaluates 3-7 unrelated expressions in a row (failing ones included), so that anything an earlier evaluation leaves
-    behind on the engine, its class or its module would show up as a wrong value / missing failure later."""
-    from operon_ai.organelles.mitochondria import Mitochondria
-    rng = ctx.rng(n)
-    got_args = []
-
-    def probe(*a, **k):
-        got_args.append((a, k))
-        return "probe-result"
-
-    mito = Mitochondria(silent=True, max_ros=1e12)
-    mito.register_function("probe", probe, "records its arguments")
-    steps = 1
-    if n % 5 == 4:
-        steps = rng.randint(3, 7)
-        ctx.count("sessions")
-    for k in range(steps):
-        if steps > 1:
-            ctx.count("session_steps")
-            if k and rng.random() < 0.3:
-                # an expression that fails part-way on the logic pathway (names true/false involved), then carry on
-                fail = rng.choice(["true and 1/0 > 0", "false or foo", "(true, 1/0)", "not (1/0)", "true and len(5)"])
-                try:
-                    mito.metabolize(fail, rng.choice([None, __import__("operon_ai.organelles.mitochondria", fromlist=["x"]).MetabolicPathway.KREBS_CYCLE]))
-                except BaseException:
-                    pass
-                ctx.count("session_failed_logic_evaluations")
-        one_expression(ctx, n, rng, mito, got_args, in_session=steps > 1)
+def reference(expr, lower_bools, extra=None):
+    """Python's value of `expr` with the allow-listed names; _Raised if Python raises; None if not confinable."""
+    try:
+        tree = ast.parse(expr.lstrip(" \t"), mode="eval")
+    except (SyntaxError, ValueError, RecursionError, MemoryError):
+        return None
+    ns = dict(CHEAP_NAMES)
+    if lower_bools:
+        ns["true"], ns["false"] = True, False
+    if extra:
+        ns.update(extra)
+    return _ref_tree(tree, ns)
 
 
-def one_expression(ctx, n, rng, mito, got_args, in_session):
+class Prepared:
+    """an expression + the features the counters / mechanism keys are derived from"""
+
+    def __init__(self, expr, mode="?"):
+        self.expr = expr
+        self.mode = mode
+        self.tree = ast.parse(expr.lstrip(" \t"), mode="eval")
+        walk = list(ast.walk(self.tree))
+        self.nops = sum(isinstance(x, (ast.BinOp, ast.UnaryOp, ast.Compare, ast.BoolOp, ast.IfExp)) for x in walk)
+        self.ncalls = sum(isinstance(x, ast.Call) for x in walk)
+        self.has_kw = any(isinstance(x, ast.Call) and x.keywords for x in walk)
+        self.has_chain = any(isinstance(x, ast.Compare) and len(x.ops) > 1 for x in walk)
+        self.has_boolop = any(isinstance(x, ast.BoolOp) for x in walk)
+        self.kw_in_str = any(isinstance(x, ast.Constant) and isinstance(x.value, str) and any(w in x.value for w in ("True", "False", "true", "false"))
+                             for x in walk)
+        self.big = any(isinstance(x, ast.Constant) and isinstance(x.value, (int, float)) and not isinstance(x.value, bool) and
+                       x.value == x.value and abs(x.value) > 2 ** 53 for x in walk)
+        body = self.tree.body
+        while isinstance(body, ast.UnaryOp) and isinstance(body.op, (ast.USub, ast.UAdd)):
+            body = body.operand
+        self.bare = isinstance(body, (ast.Constant, ast.Name)) or (isinstance(body, (ast.List, ast.Tuple)) and len(body.elts) <= 1 and self.nops == 0)
+        self.bare_num = self.bare and isinstance(body, ast.Constant) and isinstance(body.value, (int, float, complex)) and not isinstance(body.value, bool)
+        self.near = False
+
+
+def judge(ctx, eng, p, pathway, extra_w=None):
+    """run p.expr through eng on `pathway` and judge the two stated directions; returns the MetabolicResult (or None)"""
     from operon_ai.organelles.mitochondria import MetabolicPathway as MP
-    mode = rng.choice(["math", "math", "logic", "logic", "auto", "auto", "tool", "transform"])
+    expr = p.expr
+    del eng.eng_log[:]
+    del eng.ref_log[:]
+    t_before = eng.clock.offset if eng.clock is not None else 0.0
+    try:
+        with eng.quiet():
+            res = eng.mito.metabolize(expr, pathway)
+    except BaseException:  # noqa
+        ctx.count("engine_raised(totality is C01's subject)")
+        return None
+    used = res.atp.pathway if (res.success and res.atp is not None) else res.pathway
+    w = {"expression": expr, "requested_pathway": pathway.value if pathway else None,
+         "engine": {"success": res.success, "value": _r(res.atp.value) if res.success else None, "error": res.error,
+                    "pathway": used.value if used else None}}
+    if not eng.plain:
+        w["engine_setup"] = eng.desc
+    if extra_w:
+        w.update(extra_w)
+    if eng.clock is not None and eng.clock.offset - t_before > eng.timeout:
+        ctx.count("timed_out_mid_evaluation")      # the virtual clock passed the deadline while the engine was evaluating
+        ctx.count("timed_out_and_failed" if not res.success else "timed_out_and_succeeded")
+    if used == MP.OXIDATIVE:
+        judge_tool(ctx, eng, p, res, w)
+        return res
+    lower = (used == MP.KREBS_CYCLE)
+    ref = reference(expr, lower)
+    if ref is None:
+        ctx.count("reference_not_confinable")
+        return res
+    w["python"] = _r(ref)
+    if isinstance(ref, _Raised):
+        ctx.count("python_raises_checked")
+        if res.success:
+            kind = type(ref.e).__name__
+            mech = "success-where-python-raises:%s" % ("called-constant" if "not callable" in str(ref.e) else
+                                                       "keyword-argument" if p.has_kw and kind == "TypeError" else kind)
+            ctx.violation(mech, "engine reports success (%s) but Python raises %r" % (_r(res.atp.value), ref.e), w)
+        return res
+    if not res.success:
+        ctx.count("engine_failure_where_python_succeeds(not judged)")
+        return res
+    ctx.count("engine_success_compared")
+    expected = bool(ref) if used == MP.KREBS_CYCLE else ref
+    ctx.count({MP.KREBS_CYCLE: "logic_pathway_compared", MP.GLYCOLYSIS: "math_pathway_compared",
+               MP.BETA_OXIDATION: "transform_pathway_compared"}.get(used, "other_pathway_compared"))
+    for flag, key in ((p.has_kw, "keyword_calls_compared"), (p.has_chain, "chains_compared"), (p.has_boolop, "boolop_compared"),
+                      (p.kw_in_str, "string_literal_with_keywords"), (p.bare_num, "bare_numeric_literal_compared"),
+                      (p.near, "near_comparisons_compared"), (p.big, "beyond_2**53_compared"),
+                      (not eng.silent, "verbose_mode_compared"), (eng.clock is not None, "virtual_clock_compared"),
+                      (not eng.plain, "nondefault_config_compared")):
+        if flag:
+            ctx.count(key)
+    if not same_value(res.atp.value, expected):
+        if p.has_kw and not p.has_boolop:
+            mech = "wrong-value:keyword-arguments-dropped"
+        elif used == MP.KREBS_CYCLE and p.kw_in_str:
+            mech = "wrong-value:logic-rewrite-inside-literal"
+        elif p.has_boolop and used != MP.KREBS_CYCLE:
+            mech = "wrong-value:boolop-not-operand-valued"
+        elif p.bare:
+            mech = "wrong-value:bare-literal:%s" % (used.value if used else "?")
+        else:
+            mech = "wrong-value:%s" % (used.value if used else "?")
+        ctx.violation(mech, "engine value %s (%s) != Python value %s (%s) on the %s pathway" % (
+            _r(res.atp.value), type(res.atp.value).__name__, _r(expected), type(expected).__name__, used.value if used else "?"), w)
+    return res
+
+
+def judge_tool(ctx, eng, p, res, w):
+    """tool pathway: Python's value of the call = the registered function (its twin) applied to Python's values of the arguments"""
+    eng_calls = list(eng.eng_log)
+    ref = reference(p.expr, False, extra=eng.ref_ns)
+    ref_calls = list(eng.ref_log)
+    if ref is None:
+        ctx.count("reference_not_confinable")
+        return
+    w["python"] = _r(ref)
+    w["python_tool_received"] = _r(ref_calls, 300)
+    w["engine_tool_received"] = _r(eng_calls, 300)
+    call = p.tree.body
+    fname = call.func.id if isinstance(call, ast.Call) and isinstance(call.func, ast.Name) else None
+    schema = eng.schemas.get(fname)
+    if isinstance(ref, _Raised):
+        ctx.count("python_raises_checked")
+        ctx.count("tool_call_python_raises_checked")
+        if ref_calls:
+            ctx.count("tool_body_raised_checked")
+        if res.success:
+            if ref_calls:
+                mech = "success-where-python-raises:tool-body"
+            else:
+                ns = dict(CHEAP_NAMES)
+                parts = [a for a in call.args] + [k.value for k in call.keywords] if isinstance(call, ast.Call) else []
+                bad = any(isinstance(_ref_tree(ast.fix_missing_locations(ast.Expression(body=a)), ns), _Raised) for a in parts)
+                mech = "success-where-python-raises:" + ("tool-args" if bad else "tool-not-registered" if isinstance(ref.e, NameError) else "tool-binding")
+            ctx.violation(mech, "tool call succeeded (%s) although Python raises %r" % (_r(res.atp.value), ref.e), w)
+        return
+    if not res.success:
+        ctx.count("engine_failure_where_python_succeeds(not judged)")
+        return
+    ctx.count("engine_success_compared")
+    ctx.count("tool_args_compared")
+    ctx.count("tool_results_compared")
+    if schema:
+        ctx.count("schema_tool_calls_compared")
+        if isinstance(call, ast.Call) and any(k.arg not in schema for k in call.keywords):
+            ctx.count("undeclared_keyword_reached_tool")
+    for flag, key in ((not eng.silent, "verbose_mode_compared"), (eng.clock is not None, "virtual_clock_compared"),
+                      (not eng.plain, "nondefault_config_compared"), (p.has_kw, "keyword_calls_compared")):
+        if flag:
+            ctx.count(key)
+    if len(eng_calls) != len(ref_calls):
+        ctx.violation("tool-invocation-count", "tool ran %d times for one successful call (Python: %d)" % (len(eng_calls), len(ref_calls)), w)
+        return
+    for (ea, ek), (ra, rk) in zip(eng_calls, ref_calls):
+        if not same_value(ea, ra):
+            ctx.violation("wrong-value:tool-positional-args", "tool received %s, Python evaluates the arguments to %s" % (_r(ea), _r(ra)), w)
+            return
+        if not same_value(ek, rk):
+            ctx.violation("wrong-value:tool-keyword-args", "tool received keywords %s, Python evaluates them to %s" % (_r(ek), _r(rk)), w)
+            return
+    if not same_value(res.atp.value, ref):
+        ctx.violation("wrong-value:tool-result", "engine value %s != value of the call in Python %s" % (_r(res.atp.value), _r(ref)), w)
+
+
+def judge_digest(ctx, eng, p):
+    """legacy entry point: str(value) on the math pathway, or a 'Metabolic Failure' text"""
+    try:
+        with eng.quiet():
+            out = eng.mito.digest_glucose(p.expr)
+    except BaseException:  # noqa
+        ctx.count("engine_raised(totality is C01's subject)")
+        return
+    ref = reference(p.expr, False)
+    if ref is None or not isinstance(out, str):
+        return
+    failed = out.startswith("Metabolic Failure")
+    w = {"expression": p.expr, "entry": "digest_glucose", "engine": out[:200], "python": _r(ref)}
+    if isinstance(ref, _Raised):
+        ctx.count("python_raises_checked")
+        if not failed:
+            ctx.violation("success-where-python-raises:digest_glucose", "digest_glucose returned %r but Python raises %r" % (out[:80], ref.e), w)
+        return
+    if failed:
+        return
+    try:
+        want = str(ref)
+    except ValueError:
+        return
+    if want.startswith("Metabolic Failure"):
+        return
+    ctx.count("digest_glucose_compared")
+    if p.big:
+        ctx.count("beyond_2**53_compared")
+    if out != want:
+        ctx.violation("wrong-value:digest_glucose", "digest_glucose returned %r, str() of Python's value is %r" % (out[:80], want[:80]), w)
+
+
+# ------------------------------------------------------------------------------------------------ workload
+def make_expression(rng, eng, in_session, boundary, depth=None):
+    """-> (Prepared, [(pathway, label)], also_digest) or None when the text does not parse"""
+    from operon_ai.organelles.mitochondria import MetabolicPathway as MP
+    mode = rng.choice(["math", "math", "logic", "logic", "auto", "auto", "tool", "transform"] + ["tool"] * eng.tool_bias)
     # in a session the lower-case spellings may also appear where they are NOT names Python knows (math / tool pathway)
     lower = (mode == "logic" or (mode == "auto" and rng.random() < 0.3) or (in_session and rng.random() < 0.35))
-    g = AllowedGen(rng, lower_bools=lower)
-    depth = rng.choice([1, 2, 2, 3, 3, 4, 5])
+    g = BoundaryGen(rng, lower_bools=lower) if boundary else AllowedGen(rng, lower_bools=lower)
+    if depth is None:
+        depth = rng.choice([1, 2, 2, 3, 3, 4, 5])
     if mode == "tool":
-        nargs = rng.randint(0, 3)
-        argsrc = [g.anyv(depth - 1) for _ in range(nargs)]
-        kwsrc = {"k%d" % i: g.anyv(depth - 1) for i in range(rng.randint(0, 2))}
-        expr = "probe(%s)" % ", ".join(argsrc + ["%s=%s" % kv for kv in kwsrc.items()])
+        expr = rig.tool_call_source(rng, g, eng, depth - 1)
         runs = [(rng.choice([MP.OXIDATIVE, None]), "tool")]
     elif mode == "transform":
         expr = g.lst(min(depth, 2))
@@ -121,98 +334,240 @@ def one_expression(ctx, n, rng, mito, got_args, in_session):
         runs = {"math": [(MP.GLYCOLYSIS, "math")], "logic": [(MP.KREBS_CYCLE, "logic")],
                 "auto": [(None, "auto"), (rng.choice([MP.GLYCOLYSIS, MP.KREBS_CYCLE]), "forced")]}[mode]
     try:
-        tree = ast.parse(expr, mode="eval")
-    except SyntaxError:
-        ctx.count("generator_syntax_error")
-        return
-    nops = sum(isinstance(x, (ast.BinOp, ast.UnaryOp, ast.Compare, ast.BoolOp, ast.IfExp)) for x in ast.walk(tree))
-    ncalls = sum(isinstance(x, ast.Call) for x in ast.walk(tree))
-    has_kw = any(isinstance(x, ast.Call) and x.keywords for x in ast.walk(tree))
-    has_chain = any(isinstance(x, ast.Compare) and len(x.ops) > 1 for x in ast.walk(tree))
-    has_boolop = any(isinstance(x, ast.BoolOp) for x in ast.walk(tree))
-    kw_in_str = any(isinstance(x, ast.Constant) and isinstance(x.value, str) and any(w in x.value for w in ("True", "False", "true", "false"))
-                    for x in ast.walk(tree))
+        p = Prepared(expr, mode)
+    except (SyntaxError, ValueError):
+        return None
+    p.near = bool(getattr(g, "near_made", 0))
+    digest = mode in ("math", "auto") and rng.random() < (0.5 if boundary else 0.1)
+    return p, runs, digest
 
+
+def one_expression(ctx, n, rng, eng, in_session, boundary=False, depth=None):
+    made = make_expression(rng, eng, in_session, boundary, depth)
+    if made is None:
+        ctx.count("generator_syntax_error")
+        return None
+    p, runs, digest = made
+    last = None
     for pathway, label in runs:
-        del got_args[:]
-        try:
-            res = mito.metabolize(expr, pathway)
-        except BaseException as e:
-            ctx.count("engine_raised(totality is C01's subject)")
-            continue
-        used = res.atp.pathway if (res.success and res.atp is not None) else res.pathway
-        w = {"expression": expr, "requested_pathway": pathway.value if pathway else None,
-             "engine": {"success": res.success, "value": repr(res.atp.value)[:200] if res.success else None, "error": res.error,
-                        "pathway": used.value if used else None}}
-        if used == MP.OXIDATIVE or mode == "tool":
-            # compare what the tool actually received with Python's values of the argument expressions
-            if mode != "tool":
-                continue
-            refs = [reference(a, False) for a in argsrc]
-            krefs = {k: reference(v, False) for k, v in kwsrc.items()}
-            if any(r is None for r in refs) or any(r is None for r in krefs.values()):
-                continue
-            any_raise = any(isinstance(r, _Raised) for r in refs) or any(isinstance(r, _Raised) for r in krefs.values())
-            w["python_args"] = [repr(r)[:80] for r in refs] + ["%s=%r" % (k, v) for k, v in krefs.items()]
-            if res.success:
-                if any_raise:
-                    ctx.violation("success-where-python-raises:tool-args", "tool call succeeded although evaluating an argument raises in Python", w)
-                elif len(got_args) != 1:
-                    ctx.violation("tool-invocation-count", "tool ran %d times for one successful call" % len(got_args), w)
-                else:
-                    a, k = got_args[0]
-                    ctx.count("tool_args_compared")
-                    if len(a) != len(refs) or not all(values_equal(x, y) for x, y in zip(a, refs)):
-                        ctx.violation("wrong-value:tool-positional-args", "tool received %r, Python evaluates the arguments to %r" % (a, refs), w)
-                    elif set(k) != set(krefs) or not all(values_equal(k[x], krefs[x]) for x in krefs):
-                        ctx.violation("wrong-value:tool-keyword-args", "tool received keywords %r, Python evaluates them to %r" % (k, krefs), w)
-            elif any_raise:
-                ctx.count("python_raises_checked")
-            continue
-        lower = (used == MP.KREBS_CYCLE)
-        ref = reference(expr, lower)
-        if ref is None:
-            ctx.count("reference_not_confinable")
-            continue
-        w["python"] = repr(ref)[:200]
-        if isinstance(ref, _Raised):
-            ctx.count("python_raises_checked")
-            if res.success:
-                kind = type(ref.e).__name__
-                mech = "success-where-python-raises:%s" % ("called-constant" if "not callable" in str(ref.e) else
-                                                           "keyword-argument" if has_kw and kind == "TypeError" else kind)
-                ctx.violation(mech, "engine reports success (%r) but Python raises %r" % (res.atp.value, ref.e), w)
-            continue
-        if not res.success:
-            ctx.count("engine_failure_where_python_succeeds(not judged)")
-            continue
-        ctx.count("engine_success_compared")
-        expected = bool(ref) if used == MP.KREBS_CYCLE else ref
-        ctx.count({MP.KREBS_CYCLE: "logic_pathway_compared", MP.GLYCOLYSIS: "math_pathway_compared",
-                   MP.BETA_OXIDATION: "transform_pathway_compared"}.get(used, "other_pathway_compared"))
-        if has_kw:
-            ctx.count("keyword_calls_compared")
-        if has_chain:
-            ctx.count("chains_compared")
-        if has_boolop:
-            ctx.count("boolop_compared")
-        if kw_in_str:
-            ctx.count("string_literal_with_keywords")
-        if not values_equal(res.atp.value, expected):
-            if has_kw and not has_boolop:
-                mech = "wrong-value:keyword-arguments-dropped"
-            elif used == MP.KREBS_CYCLE and kw_in_str:
-                mech = "wrong-value:logic-rewrite-inside-literal"
-            elif has_boolop and used != MP.KREBS_CYCLE:
-                mech = "wrong-value:boolop-not-operand-valued"
-            else:
-                mech = "wrong-value:%s" % (used.value if used else "?")
-            ctx.violation(mech, "engine value %r (%s) != Python value %r (%s) on the %s pathway" % (
-                res.atp.value, type(res.atp.value).__name__, expected, type(expected).__name__, used.value if used else "?"), w)
-    if nops >= 2 or ncalls >= 1:
-        ctx.nontrivial(ast.dump(tree))
+        last = (judge(ctx, eng, p, pathway), pathway)
+    if digest:
+        judge_digest(ctx, eng, p)
+    if p.nops >= 2 or p.ncalls >= 1:
+        ctx.nontrivial(ast.dump(p.tree))
     if n % 5000 == 0:
-        ctx.sample({"expression": expr, "mode": mode})
+        ctx.sample({"expression": p.expr, "mode": p.mode, "engine_setup": eng.desc})
+    return p, last
+
+
+def reads(ctx, rng, eng):
+    """reporting / read-only APIs: calling them (and scribbling on what they return) must not change any later verdict"""
+    m = eng.mito
+    with eng.quiet():
+        for _ in range(rng.randint(1, 3)):
+            k = rng.randrange(6)
+            try:
+                if k == 0:
+                    s = m.get_statistics()
+                    if isinstance(s, dict):
+                        for v in s.values():
+                            if isinstance(v, list):
+                                del v[:]
+                        s.clear()
+                elif k == 1:
+                    lst = m.list_tools()
+                    if isinstance(lst, list):
+                        for d in lst:
+                            if isinstance(d, dict):
+                                d.clear()
+                        del lst[:]
+                elif k == 2:
+                    out = m.export_tool_schemas()
+                    if isinstance(out, list):
+                        del out[:]
+                elif k == 3:
+                    m.get_efficiency()
+                elif k == 4:
+                    m.get_ros_level()
+                else:
+                    repr(m), str(m)
+            except Exception:  # noqa
+                ctx.count("read_api_raised(not judged)")
+    ctx.count("reads_interleaved")
+
+
+def maintenance(ctx, rng, eng, force=False):
+    """repair(): the maintenance API that adjusts the accumulated-error level"""
+    m = eng.mito
+    with eng.quiet():
+        try:
+            if force:
+                m.repair(1e9)
+            else:
+                r = rng.random()
+                if r < 0.4:
+                    m.repair()
+                else:
+                    m.repair(rng.choice([0, 0.1, 0.5, 1, 2.5, 1e9, 0.1 + 0.2, 1e-12, float("inf"), -0.05, 10 ** 30]))
+        except Exception:  # noqa
+            ctx.count("repair_raised(not judged)")
+    ctx.count("repairs")
+
+
+def healthy(eng):
+    try:
+        return eng.mito.get_ros_level() < eng.mito.max_ros
+    except Exception:  # noqa
+        return True
+
+
+def reevaluate_after_mutation(ctx, rng, eng, p, last):
+    """the caller scribbles on the value it got back, then asks for the same expression again (same str object / an equal copy)"""
+    res, pathway = last
+    if res is None or not res.success or res.atp is None:
+        return
+    v = res.atp.value
+    if v is rig.SHARED_CONSTANT:
+        return
+    if isinstance(v, list):
+        v.append("scribble")
+        if v and rng.random() < 0.5:
+            v[0] = ["scribble"]
+    elif isinstance(v, tuple) and any(isinstance(x, list) for x in v):
+        for x in v:
+            if isinstance(x, list):
+                x.append("scribble")
+    elif rng.random() < 0.8:
+        return
+    again = p
+    if rng.random() < 0.5:
+        try:
+            again = Prepared((p.expr + " ")[:-1] if rng.random() < 0.5 else p.expr + " ", p.mode)
+        except (SyntaxError, ValueError):
+            again = p
+        again.near = p.near
+    ctx.count("reevaluated_after_result_mutation")
+    judge(ctx, eng, again, pathway, {"note": "second evaluation after the first result object was modified by the caller"})
+
+
+FAILING_LOGIC = ["true and 1/0 > 0", "false or foo", "(true, 1/0)", "not (1/0)", "true and len(5)"]
+
+
+def session(ctx, n, rng, engines, steps, boundary_share=0.3, extras=True, label=None):
+    """`steps` unrelated expressions (failing ones included) on long-lived engine(s); anything an earlier evaluation, a read, a repair,
+    a raising tool or ANOTHER engine leaves behind on the engine, its class or its module would show up as a wrong value / missing failure"""
+    from operon_ai.organelles.mitochondria import MetabolicPathway as MP
+    for k in range(steps):
+        eng = engines[0] if len(engines) == 1 else rng.choice(engines)
+        ctx.count("session_steps")
+        if label:
+            ctx.count(label)
+        if k and rng.random() < 0.3:
+            # an expression that fails part-way on the logic pathway (names true/false involved), then carry on
+            try:
+                with eng.quiet():
+                    eng.mito.metabolize(rng.choice(FAILING_LOGIC), rng.choice([None, MP.KREBS_CYCLE]))
+            except BaseException:  # noqa
+                pass
+            ctx.count("session_failed_logic_evaluations")
+        if extras:
+            r = rng.random()
+            if r < 0.25:
+                reads(ctx, rng, eng)
+            elif r < 0.4:
+                maintenance(ctx, rng, eng)
+            if not healthy(eng) and rng.random() < 0.7:
+                maintenance(ctx, rng, eng, force=True)
+        out = one_expression(ctx, n, rng, eng, True, boundary=rng.random() < boundary_share)
+        if extras and out is not None and out[1] is not None and rng.random() < 0.35:
+            reevaluate_after_mutation(ctx, rng, eng, out[0], out[1])
+
+
+def long_session(ctx, n, rng, ops, variant):
+    """one engine, > 20 000 evaluations of distinct small expressions; early expressions are asked again much later; tools keep being
+    registered; the ROS level is kept in check with repair() on the default limit every other long session"""
+    eng = rig.build_engine(rng, plain=(variant == 0), want_tools=3, force_kw={"max_ros": 1.0, "timeout_seconds": 1e9})
+    early = []
+    for k in range(ops):
+        ctx.count("long_session_evaluations")
+        if variant and k % 4 == 0 and not healthy(eng):
+            maintenance(ctx, rng, eng, force=True)
+        if k % 2500 == 2499:
+            reads(ctx, rng, eng)
+            for i in range(10):                     # late registrations
+                name = "late%d_%d" % (k, i)
+                kind = rng.choice(sorted(rig.KINDS))
+                with eng.quiet():
+                    eng.mito.register_function(name, rig.make_tool(kind, eng.eng_log, None), parameters_schema=rig.schema_for(rng, kind))
+                eng.kinds[name] = kind
+                eng.ref_ns[name] = rig.make_tool(kind, eng.ref_log, None)
+                eng.schemas[name] = None      # (not counted as a schema call)
+        if early and rng.random() < 0.08:
+            p, pathway = rng.choice(early)
+            judge(ctx, eng, p, pathway, {"note": "asked again at evaluation %d of a long session" % k})
+            continue
+        out = one_expression(ctx, n, rng, eng, True, boundary=rng.random() < 0.4, depth=rng.choice([1, 1, 2, 2, 3]))
+        if out is not None and out[1] is not None and (len(early) < 400 or rng.random() < 0.01):
+            early.append((out[0], out[1][1]))
+            if len(early) > 800:
+                del early[rng.randrange(400)]
+
+
+def run_case(ctx, n):
+    """Case kinds by n % 10 (all pure functions of (seed, n)):
+    0-3, 9  one expression on a fresh plain engine (2, 3: boundary generator)
+    4       session of 3-7 expressions on one plain engine (+ reads, repairs, re-evaluation after result mutation)
+    5       engine in a non-default configuration (verbose, timeout under a self-advancing virtual clock, ROS limit, capabilities), short session
+    6       tool family: tools of several signatures, with/without schema, every registration route, raising / mutating / shared-object tools
+    7       two or three differently configured engines (same tool names, different functions) used alternately
+    8       boundary generator: near comparisons, degenerate whole expressions, digest_glucose
+    plus the long sessions listed in LONG."""
+    import operon_ai.organelles.mitochondria as mitomod
+    rng = ctx.rng(n)
+    long = LONG.get(ctx.tier, {}).get(n)
+    if long:
+        return long_session(ctx, n, rng, *long)
+    kind = n % 10
+    if kind in (0, 1, 2, 3, 9):
+        eng = rig.build_engine(rng, plain=True)
+        one_expression(ctx, n, rng, eng, False, boundary=kind in (2, 3))
+    elif kind == 4:
+        ctx.count("sessions")
+        session(ctx, n, rng, [rig.build_engine(rng, plain=True)], rng.randint(3, 7))
+    elif kind == 8:
+        eng = rig.build_engine(rng, plain=True)
+        for _ in range(2):
+            one_expression(ctx, n, rng, eng, False, boundary=True, depth=rng.choice([0, 1, 1, 2, 2, 3]))
+    else:
+        # non-default engines; half of them under a virtual clock that moves on every read
+        clock = None
+        if rng.random() < (0.6 if kind == 5 else 0.3):
+            step = rng.choice([0.0, 0.0, 1e-6, 1e-6, 1e-3, 1e-3, 0.013, 0.05, 0.25, 1.0, 0.1 + 0.2, 3600.0, 90000.0])
+            clock = rig.StepClock(step)
+        if kind == 7:
+            names = rng.sample(rig.TOOL_NAMES, 2)
+            engines = [rig.build_engine(rng, clock, names=names) for _ in range(rng.randint(2, 3))]
+            label = "multi_instance_steps"
+        else:
+            engines = [rig.build_engine(rng, clock, want_tools=rng.randint(2, 5) if kind == 6 else 0)]
+            label = None
+        for e in engines:
+            e.tool_bias = {5: 1, 6: 10, 7: 4}[kind]
+        for e in engines:
+            for r in e.routes:
+                ctx.count("route:" + r)
+                if ("route", r) not in _seen:
+                    _seen.add(("route", r))
+                    ctx.count("registration_routes_used")
+        steps = rng.randint(3, 7) if kind != 7 else rng.randint(4, 8)
+        if clock is not None:
+            with vclock.patched(clock, mitomod):
+                session(ctx, n, rng, engines, steps, label=label)
+        else:
+            session(ctx, n, rng, engines, steps, label=label)
+
+
+_seen = set()
 
 
 if __name__ == "__main__":
